@@ -40,7 +40,7 @@ func (s c02HState) key() string {
 }
 
 var c02HOps = []string{"permit-P", "restrict-P", "delete-P", "grant-Q", "delete-Q", "revoke-T1", "revoke-self-T1", "revoke-accessor-TE",
-	"disable-E", "enable-E", "grant-identity-policy", "drop-identity-policy", "join-group", "leave-group", "lock-ns1", "unlock-ns1", "remount", "tune-m"}
+	"disable-E", "enable-E", "grant-identity-policy", "drop-identity-policy", "join-group", "leave-group", "lock-ns1", "unlock-ns1", "remount", "tune-m", "patch-P-refused"}
 
 func c02HNext(s c02HState, op string) c02HState {
 	switch op {
@@ -77,6 +77,9 @@ func c02HNext(s c02HState, op string) c02HState {
 	case "remount":
 		s.Moved = !s.Moved
 	case "tune-m":
+	case "patch-P-refused":
+		// a PATCH of the policy carrying the full grant but a stale check-and-set value: it
+		// is refused, nothing changes
 	default:
 		panic("unknown op " + op)
 	}
@@ -247,6 +250,12 @@ func (r *c02HRun) apply(op string, m c02HState) (bool, string) {
 		resp, err = s.Req(s.Root, logical.UpdateOperation, "sys/policies/acl/hp", map[string]interface{}{"policy": c02HCL(c02PRestricted)})
 	case "delete-P":
 		resp, err = s.Req(s.Root, logical.DeleteOperation, "sys/policies/acl/hp", nil)
+	case "patch-P-refused":
+		resp, err = s.Req(s.Root, logical.PatchOperation, "sys/policies/acl/hp", map[string]interface{}{"policy": c02HCL(append(append([]c03ref.Stanza{}, c02PFull...), c02PR...)), "cas": 987654})
+		if OK(resp, err) && m.P != 0 {
+			return false, "a policy PATCH with a stale cas value was accepted"
+		}
+		return true, ""
 	case "grant-Q":
 		resp, err = s.Req(s.Root, logical.UpdateOperation, "sys/policies/acl/hq", map[string]interface{}{"policy": c02HCL(c02PQ)})
 	case "delete-Q":
